@@ -164,6 +164,24 @@ pub fn produce(r: &mut Rng, out: &mut String, b: &str, t: &[(u32, u32)], which: 
             let above = r.range(0, 5000);
             let lo = t.first().map(|x| x.0 as u64).unwrap_or(100_000);
             let hi = t.last().map(|x| x.0 as u64 + x.1 as u64).unwrap_or(100_000);
+            let kf = lo >> 16;
+            let kl = (hi.max(1) - 1) >> 16;
+            if !t.is_empty() && kf > 0 && kl < 0xFFFF && r.chance(1, 2) {
+                // the extra values live in chunks of their own (the chunk below the first / above the last target chunk):
+                // remove_smallest / remove_biggest then take away EXACTLY whole chunks, which must disappear
+                let nb = *r.pick(&[1u64, 2, 4096, 4097]);
+                let na = *r.pick(&[1u64, 2, 4096, 4097]);
+                let sb = ((kf - 1) << 16) + *r.pick(&[0u64, 7, 60000]);
+                let sa = ((kl + 1) << 16) + *r.pick(&[0u64, 7, 60000]);
+                writeln!(out, "insert_range {} in:{} in:{}", b, sb, sb + nb - 1).unwrap();
+                for &(s, l) in t {
+                    writeln!(out, "insert_range {} in:{} ex:{}", b, s, s as u64 + l as u64).unwrap();
+                }
+                writeln!(out, "insert_range {} in:{} in:{}", b, sa, sa + na - 1).unwrap();
+                writeln!(out, "remove_smallest {} {}", b, nb).unwrap();
+                writeln!(out, "remove_biggest {} {}", b, na).unwrap();
+                return "trim-whole-chunks";
+            }
             let nb = below.min(lo);
             let na = above.min(u32::MAX as u64 + 1 - hi);
             if nb > 0 {
